@@ -397,28 +397,33 @@ def check_pc_guard(Ks, Ls, perms, r, rank, tol, slack=1e-9):
     return fails
 
 
-def check_precond_member(K, dvec, Lref, clI, Pd, ld, rtol=1e-7):
-    """closure(I) is the inverse of M = Lref Lref^T + D, symmetric positive definite; P = M; logdet."""
+def check_precond_member(K, dvec, Lref, clI, Pd, ld, rtol=1e-13):
+    """closure(I) is the inverse of M = Lref Lref^T + D, symmetric positive definite; P = M; logdet.
+    Tolerances are a few hundred times the accuracy the implementation reaches on the whole grid (measured:
+    inverse 4e-16, logdet 2.5e-14, operator 4e-16 in the units below) so that an inexactness of relative size
+    1e-7 in D is still seen.  The inverse is normalised by the conditioning of the Woodbury form itself,
+    max|M| / min d (the closure computes (1/s)(I - Q1 Q1^T): cancellation of that size is inherent)."""
     n = K.shape[-1]
     fails = []
     M = Lref @ Lref.T + torch.diag(dvec)
     I = torch.eye(n, dtype=DT)
     cond = float(torch.linalg.cond(M))
-    sc = max(1.0, cond)
+    wood = M.abs().max().item() / max(1e-300, dvec.min().item())
+    sc = n * max(1.0, cond, wood)
     e1 = (clI @ M - I).abs().max().item()
     e2 = (M @ clI - I).abs().max().item()
     if not (e1 <= rtol * sc and e2 <= rtol * sc):
-        fails.append(("inverse", "closure is not the inverse of L L^T + D: |closure(I) M - I| = %.3e, |M closure(I) - I| = %.3e (cond %.2e)" % (e1, e2, cond)))
+        fails.append(("inverse", "closure is not the inverse of L L^T + D: |closure(I) M - I| = %.3e, |M closure(I) - I| = %.3e (cond %.2e, max|M|/min d %.2e)" % (e1, e2, cond, wood)))
     asym = (clI - clI.T).abs().max().item()
-    if asym > rtol * clI.abs().max().item():
+    if asym > 1e-12 * clI.abs().max().item():
         fails.append(("sym", "closure matrix is not symmetric: %.3e" % asym))
     ev = torch.linalg.eigvalsh((clI + clI.T) / 2)
     if not ev.min().item() > 0:
         fails.append(("pd", "closure matrix is not positive definite: min eigenvalue %.3e" % ev.min().item()))
     dP = (Pd - M).abs().max().item()
-    if not dP <= rtol * max(1.0, M.abs().max().item()):
+    if not dP <= 1e-12 * max(1.0, M.abs().max().item()):
         fails.append(("operator", "returned operator is not L L^T + D: max deviation %.3e" % dP))
     ldref = torch.linalg.slogdet(M)[1].item()
-    if not abs(ld - ldref) <= rtol * max(1.0, abs(ldref)):
+    if not abs(ld - ldref) <= 1e-11 * max(1.0, abs(ldref)) + 1e-15 * cond:
         fails.append(("logdet", "reported logdet %.12g differs from log|L L^T + D| = %.12g" % (ld, ldref)))
     return fails
